@@ -108,6 +108,9 @@ where
                         Poll::Ready(Ok(_)) => {
                             if si.start_send_unpin(Frame::Error(err)).is_ok() {
                                 *buffered_err = Some((None, si));
+                                // Close (and thereby flush) the rejected sink before taking
+                                // the next socket, which could claim this slot.
+                                continue;
                             }
                         }
                         Poll::Ready(Err(e)) => warn!("Could not poll replier sink: {e:?}"),
